@@ -1,5 +1,6 @@
 import XModel.TableThms
 import XModel.TableLabels
+import XModel.TableDerivHist
 /-!
 # C07 — table rows addressed by name resolve against the current index column
 Model: `XModel/Table.lean` (`getRowCache`, `getRowIndex`, `resolveCellRow`, `setCell`, `setCol`, `delCol`),
@@ -16,6 +17,12 @@ setCol / setCell / delCol / getIndex / getCell steps but no `rows[...]` / `indic
 `TableM.indicesOf_keeps`), so "all histories" in docstrings means histories over `TOp`.  There is no theorem for the tuple
 form inside a cell access `t[col, (name, count[, offset])]` (its own fast path in `resolveCellRow`); the correspondence run
 and the scan oracle cover it.  The driver always builds tables with the default separators.
+
+**Derived tables.**  `C07_history_with_derivations_coherent` / `C07_lookup_after_history_with_derivations` extend the
+history theorems to `DOp` (`XModel/TableDerivHist.lean`): the `TOp` steps and "the table in use is replaced by a derivation
+of itself" (`_copy()`, `t * k`, `t + t`, `rows[sel]`, `cols[names]`).  Every model derivation builds its result without a
+cache, as the constructor of `table.py` does; the correspondence run makes the driver apply `mulT` / `addT` / `copyT` to its
+own current table on the `via_derive` lines of `harness/w_table.py` and compares the columns with the implementation's.
 -/
 namespace Properties.C07
 open TableM Cache
@@ -154,5 +161,90 @@ theorem C07_string_forms_after_history :
   @TableM.history_getRowIndex_label
 
 end wrapped
+
+/-! ### histories in which the table is replaced by a derivation of itself -/
+
+/-- **all histories, derivations included**: after any sequence of whole-column assignments, new columns, cell assignments,
+    column deletions, look-ups AND replacements of the table in use by `t._copy()`, `t * k`, `t + t`, `t.rows[sel]` (any
+    selector, `m` = the `re.fullmatch` oracle) or `t.cols[names]`, the cache (if any) is the one a fresh pass over the
+    current index column builds.  A derivation that raises leaves the table in use as it was.  (The derived table starts
+    without a cache, as the constructor leaves it: `TableM.mulT_cache`, `addT_cache`, `copyT_cache`, `rowsOf_cache`,
+    `selectCols_cache`.) -/
+theorem C07_history_with_derivations_coherent (m : String → Match) (ops : List DOp) (t : Tbl) (h : Coherent t)
+    (hdel : ∀ n, DOp.api (.delCol n) ∈ ops → n ≠ t.index) : Coherent (ops.foldl (applyDOp m) t) :=
+  dhistory_coherent m ops t h hdel
+
+/-- hence, after any such history, `rows.get_index((name, count, offset))` is the scan of the index column of the table in
+    use *now* — the derived table's, after a derivation: the count-th occurrence (negative counts from the last) plus the
+    offset, `KeyError` otherwise -/
+theorem C07_lookup_after_history_with_derivations (m : String → Match) (ops : List DOp) (t : Tbl) (h : Coherent t)
+    (hdel : ∀ n, DOp.api (.delCol n) ∈ ops → n ≠ t.index) (name : String) (count : Int) (offset : Option Int) :
+    (getRowIndex (ops.foldl (applyDOp m) t) (.tup name count offset)).2 =
+      match scanLookup (ops.foldl (applyDOp m) t).indexCol name count (offset.getD 0) with
+      | some i => .ok i
+      | none => .error .keyError :=
+  lookup_after_dhistory m ops t h hdel name count offset
+
+/-- a history without derivations is a `DOp` history: the two theorems above contain `C07_history_coherent` and
+    `C07_lookup_after_history` -/
+theorem C07_history_without_derivations (m : String → Match) (ops : List TOp) (t : Tbl) :
+    (ops.map DOp.api).foldl (applyDOp m) t = ops.foldl applyTOp t :=
+  foldl_api m ops t
+
+/-- **repetition**: in `t * k` — whatever cache `t` had built — the tuple `(name, count, offset)` resolves by the scan of
+    the index column of `t` repeated `k` times -/
+theorem C07_lookup_in_repeated_table (t : Tbl) (hidx : t.index ∈ t.colNames) (k : Nat) (r : Tbl) (hr : mulT t k = .ok r)
+    (name : String) (count : Int) (offset : Option Int) :
+    (getRowIndex r (.tup name count offset)).2 =
+      match scanLookup (List.replicate k t.indexCol).flatten name count (offset.getD 0) with
+      | some i => .ok i
+      | none => .error .keyError :=
+  getRowIndex_mulT t hidx k r hr name count offset
+
+/-- … into the right block: occurrence `j·occ + c` (`j < k`, `c < occ` = the number of occurrences in `t`) is `j` table
+    lengths after the row `i` that `t` resolves `(name, c)` to -/
+theorem C07_lookup_in_repeated_table_block (t : Tbl) (hidx : t.index ∈ t.colNames) (k : Nat) (r : Tbl)
+    (hr : mulT t k = .ok r) (name : String) (j c : Nat) (hj : j < k) (hc : c < occ t.indexCol name) (i : Nat)
+    (hi : nthOcc t.indexCol name c = some i) (offset : Option Int) :
+    (getRowIndex r (.tup name ((j * occ t.indexCol name + c : Nat) : Int) offset)).2 =
+      .ok (((i + j * t.indexCol.length : Nat) : Int) + offset.getD 0) :=
+  getRowIndex_mulT_block t hidx k r hr name j c hj hc i hi offset
+
+/-- … and from the back: count `-(d+1)` is an occurrence of the LAST block -/
+theorem C07_scan_of_repeated_column_from_the_back (col : List String) (name : String) (k d : Nat) (hk : 0 < k)
+    (hd : d < occ col name) (offset : Int) :
+    scanLookup (List.replicate k col).flatten name (-((d : Int) + 1)) offset =
+      (nthOcc col name (occ col name - 1 - d)).map (fun i => ((i + (k - 1) * col.length : Nat) : Int) + offset) :=
+  scanLookup_repeated_last col name k d hk hd offset
+
+/-- `t + t`: the scan of the index column followed by itself -/
+theorem C07_lookup_in_doubled_table (t : Tbl) (hidx : t.index ∈ t.colNames) (r : Tbl) (hr : addT t t = .ok r)
+    (name : String) (count : Int) (offset : Option Int) :
+    (getRowIndex r (.tup name count offset)).2 =
+      match scanLookup (t.indexCol ++ t.indexCol) name count (offset.getD 0) with
+      | some i => .ok i
+      | none => .error .keyError :=
+  getRowIndex_addT_self t hidx r hr name count offset
+
+/-! non-vacuity: index column `[a, b, a]`, a look-up (the cache is built), then `t = t * 2`; `'a::-1'` is row 5 of the
+    product (2 on the source, which is what a product that kept the source's cache would answer) -/
+example : Coherent rep3 ∧ ∀ n, DOp.api (.delCol n) ∈ rep3Hist → n ≠ rep3.index :=
+  ⟨Or.inl rfl, fun n hn => by simp [rep3Hist] at hn⟩
+example : ((applyDOp noMatch rep3 (.api (.getIndex (.name "a")))).cache.isSome) = true := by decide
+example : (rep3Hist.foldl (applyDOp noMatch) rep3).indexCol = ["a", "b", "a", "a", "b", "a"] := by decide
+example : (getRowIndex (rep3Hist.foldl (applyDOp noMatch) rep3) (.name "a::-1")).2.toOption = some 5 := by decide
+example : (getRowIndex (rep3Hist.foldl (applyDOp noMatch) rep3) (.tup "a" (-1) none)).2.toOption = some 5 := by decide
+example : (getRowIndex (applyDOp noMatch rep3 (.api (.getIndex (.name "a")))) (.name "a::-1")).2.toOption = some 2 := by
+  decide
+example : (mulT rep3 2).toOption.map (·.indexCol) = some ["a", "b", "a", "a", "b", "a"] ∧ rep3.index ∈ rep3.colNames := by
+  decide
+/-- the block form on the same table: `k = 2`, block `j = 1`, occurrence `c = 1` of `occ = 2` → count 3 → row 2 + 3 -/
+example : occ rep3.indexCol "a" = 2 ∧ nthOcc rep3.indexCol "a" 1 = some 2 ∧ rep3.indexCol.length = 3 := by decide
+/-- a failing derivation (`t * 0`, a column that is not there) leaves the table in use as it was -/
+example : (applyDOp noMatch rep3 (.mul 0)).indexCol = rep3.indexCol ∧
+    (applyDOp noMatch rep3 (.cols ["nope"])).colNames = rep3.colNames := by decide
+/-- `rows[[2, 0]]` and `cols[['v']]` (the index column is kept) as steps of a history -/
+example : ([DOp.rows (.ints [2, 0]), .cols ["v"]].foldl (applyDOp noMatch) rep3).indexCol = ["a", "a"] ∧
+    ([DOp.rows (.ints [2, 0]), .cols ["v"]].foldl (applyDOp noMatch) rep3).colNames = ["name", "v"] := by decide
 
 end Properties.C07
